@@ -7,9 +7,10 @@ UT = "fgutils/utils.py"; IT = "fgutils/its.py"
 NEW_LOOP = """    D = np.identity(A.shape[0], dtype=A.dtype)
     D_sum = D.copy()
     for _ in range(radius):
-        D = np.matmul(D, A)
+        D = (np.matmul(D, A) > 0).astype(A.dtype)
         D_sum += D
 """
+CLAMP = "        D = (np.matmul(D, A) > 0).astype(A.dtype)\n"
 MUTANTS = {
  "m19": [(IT, "        if edge_label[0] != edge_label[1]:", "        if edge_label[0] != edge_label[1] and edge_label[1] != 3:")],
  "f8a_identity_only_r0": [(UT, NEW_LOOP, """    if radius == 0:
@@ -18,7 +19,7 @@ MUTANTS = {
         D = A.copy()
         D_sum = A.copy()
         for _ in range(radius - 1):
-            D = np.matmul(D, A)
+            D = (np.matmul(D, A) > 0).astype(A.dtype)
             D_sum += D
 """)],
  "f8b_nodelist_range": [(UT, "    nodelist = sorted(g.nodes)\n", "    nodelist = list(range(len(g.nodes)))\n")],
@@ -31,7 +32,34 @@ MUTANTS = {
  "own_no_id_increment": [(IT, "                    new_node_id += 1\n", "                    pass\n")],
  "own_unsorted_nodelist_no_map": [(UT, "    return np.array([nodelist[i] for i in np.where(center_paths == 0)[0]], dtype=int)", "    return np.array([sorted(nodelist, reverse=True)[i] for i in np.where(center_paths == 0)[0]], dtype=int)")],
  "own_cols_instead_of_rows_directed_irrelevant": [(UT, "    center_paths = D_sum[start_indices].sum(axis=0)", "    center_paths = D_sum[start_indices[:1]].sum(axis=0) if len(start_indices) > 2 else D_sum[start_indices].sum(axis=0)")],
+ # reversal of 5e2d069: int64 walk counts wrap around (caught by the doubling-gadget witnesses and big:* families)
+ "int64_revert_5e2d069": [(UT, CLAMP, "        D = np.matmul(D, A)\n")],
+ "int64_noclamp_large_graphs_only": [(UT, CLAMP, "        D = (np.matmul(D, A) > 0).astype(A.dtype) if A.shape[0] < 150 else np.matmul(D, A)\n")],
+ "int64_revert_and_gt0_test(C11_r2_2 on its own tree)": [(UT, CLAMP, "        D = np.matmul(D, A)\n"),
+    (UT, "    return np.array([nodelist[i] for i in np.where(center_paths == 0)[0]], dtype=int)", "    return np.array([n for n, r in zip(nodelist, center_paths > 0) if not r], dtype=int)")],
+ # answers that depend on an earlier call / an earlier state of the same object (caught by the same-object histories)
+ "history_lru_cache_get_rc": [(IT, "def get_rc(ITS: nx.Graph) -> nx.Graph:", "import functools\n\n\n@functools.lru_cache(maxsize=None)\ndef get_rc(ITS: nx.Graph) -> nx.Graph:")],
+ "history_memo_unreachable_by_object_id": [(UT, "def get_unreachable_nodes(g, start_nodes, radius=1):\n", "_MEMO = {}\n\n\ndef get_unreachable_nodes(g, start_nodes, radius=1):\n    _k = (id(g), tuple(start_nodes), radius)\n    if _k in _MEMO:\n        return _MEMO[_k][1]\n    _MEMO[_k] = (g, _get_unreachable_nodes(g, start_nodes, radius))\n    return _MEMO[_k][1]\n\n\ndef _get_unreachable_nodes(g, start_nodes, radius=1):\n")],
+ "history_ITS_prune_from_original_graph": [(IT, "        self.graph = prune_its_to_rc(\n            self.graph, radius=radius, insert_hydrogens=insert_hydrogens\n        )", "        if not hasattr(self, '_orig'):\n            self._orig = self.graph\n        self.graph = prune_its_to_rc(\n            self._orig, radius=radius, insert_hydrogens=insert_hydrogens\n        )")],
+ # seeded change C11_r3_1 on top of the current code: one BFS per start node sharing a single visited set (start ORDER matters)
+ "start_order_bfs_shared_visited(C11_r3_1 adapted)": [(UT, """    nodelist = sorted(g.nodes)
+    node_index = {n: i for i, n in enumerate(nodelist)}
+    A = nx.adjacency_matrix(g, nodelist=nodelist).toarray()
+""" + NEW_LOOP + """    start_indices = [node_index[n] for n in start_nodes]
+    center_paths = D_sum[start_indices].sum(axis=0)
+    return np.array([nodelist[i] for i in np.where(center_paths == 0)[0]], dtype=int)
+""", """    reached = set(start_nodes)
+    for n in start_nodes:
+        frontier = {n}
+        for _ in range(radius):
+            frontier = {v for u in frontier for v in g.neighbors(u)} - reached
+            if len(frontier) == 0:
+                break
+            reached.update(frontier)
+    return np.array([n for n in sorted(g.nodes) if n not in reached], dtype=int)
+""")],
  # harmless rewrites: must stay quiet
+ "ok_clamp_by_minimum": [(UT, CLAMP, "        D = np.minimum(np.matmul(D, A), 1)\n")],
  "ok_reverse_unreachable_order": [(IT, "    for u in unreachable_nodes:\n", "    for u in unreachable_nodes[::-1]:\n")],
  "ok_unsorted_nodelist": [(UT, "    nodelist = sorted(g.nodes)\n", "    nodelist = list(g.nodes)[::-1]\n")],
  "ok_rc_edge_order": [(IT, "    for n1, n2, d in ITS.edges(data=True):\n        edge_label = d[BOND_KEY]", "    for n2, n1, d in reversed(list(ITS.edges(data=True))):\n        edge_label = d[BOND_KEY]")],
